@@ -87,6 +87,10 @@ impl StateMachine<'_> {
                     BgShouldFill::default(),
                 );
                 handled_line = true
+            } else if let State::Blame(_) = self.state {
+                // Not a blame line: it is emitted as it is, and the blame line after it is not
+                // directly below the blame line before it (no "same commit as above").
+                self.state = State::Unknown;
             }
         }
         Ok(handled_line)
